@@ -123,6 +123,14 @@ def run(hist):
         owner = TexCmd('x', args=a)
         if str(owner) != '\\x' + ''.join(m):
             return op, 'the owning command prints %r' % str(owner)
+        # every kind of owner prints its argument list right after its opening (named environment, group, math region)
+        from TexSoup.data import TexMathModeEnv, TexDisplayMathEnv
+        owners = ((TexNamedEnv('e', ['b']), '\\begin{e}', 'b\\end{e}'), (BraceGroup('b'), '{', 'b}'),
+                  (BracketGroup('b'), '[', 'b]'), (TexMathModeEnv(['b']), '$', 'b$'), (TexDisplayMathEnv(['b']), '\\[', 'b\\]'))
+        for own, opening, closing in owners:
+            own.args = a
+            if str(own) != opening + ''.join(m) + closing:
+                return op, 'the owning %s prints %r, its argument list is %r' % (type(own).__name__, str(own), ''.join(m))
     return None
 
 
